@@ -67,12 +67,17 @@ def mon_c11(sc, obs):
         return ("no exception", f"raised error class {obs[1]}", None)
     kb, qobjs = sc[1], sc[5]
     nb = len(kb)
+    dirty = set()
     for n, op, amt, before, after in walk(sc, obs):
         if after is None:
             return None
+        if op[0] == 21 and qobjs[op[1]][1] >= nb:
+            dirty.add(qobjs[op[1]][1] - nb)
         if op[0] != 20:
             continue
         qi = op[1]
+        was_dirty = qi in dirty
+        dirty.discard(qi)
         kd, opd, free, full, w, ovars = qobjs[qi][:6]
         full = full == 1
         w = sx.bnd(w)
@@ -88,8 +93,8 @@ def mon_c11(sc, obs):
             old = before[1][qi].get(key)
             if old is None:
                 old = w
-            elif free:
-                continue     # free-variable path with an existing entry: re-creation rules, covered by the model correspondence
+            elif free and was_dirty:
+                continue     # an outer quantifier wrote into this quantifier's private neurons: its table does not show them
             if kd == 0:
                 new = (clamp(1 - sum(1 - b[0] for b in inst)), clamp(1 - sum(1 - b[1] for b in inst)))
                 exp = (max(old[0], new[0]) if full else old[0], min(old[1], new[1]))
